@@ -1,0 +1,53 @@
+//go:build verif
+
+// Contracts for govc (contract-based deductive verification, see /verif/DESIGN.md).
+// Comment-only file: it contains no code and is compiled only under the verif tag.
+
+package transport
+
+// ---------------------------------------------------------------- sender side: splitting a file into chunks (C15)
+
+//@ func splitBySnapshotFile [C15]
+//@ requires startChunkID + (filesize - 1) / snapshotChunkSize + 1 <= MaxUint64
+//@ ensures filesize > 0
+//@ ensures len(result) == (filesize - 1) / snapshotChunkSize + 1
+//@ ensures forall i int :: 0 <= i && i < len(result) ==> result[i].FileChunkId == i && result[i].ChunkId == startChunkID + i &&
+//@    result[i].FileChunkCount == len(result) && result[i].FileSize == filesize && result[i].ChunkSize > 0 && result[i].ChunkSize <= snapshotChunkSize
+// the chunk sizes add up to the file size: all but the last chunk are full
+//@ ensures forall i int :: 0 <= i && i < len(result) - 1 ==> result[i].ChunkSize == snapshotChunkSize
+//@ ensures result[len(result) - 1].ChunkSize == filesize - (len(result) - 1) * snapshotChunkSize
+//@ loop 1 modifies freshof(pb.Chunk)
+//@ loop 1 invariant len(results) == i && i <= chunkCount && (fresh(results) || cap(results) == 0)
+//@ loop 1 invariant forall j int :: 0 <= j && j < len(results) ==> results[j].FileChunkId == j && results[j].ChunkId == startChunkID + j &&
+//@    results[j].FileChunkCount == chunkCount && results[j].FileSize == filesize && results[j].ChunkSize > 0 && results[j].ChunkSize <= snapshotChunkSize
+//@ loop 1 invariant forall j int :: 0 <= j && j < len(results) && j < chunkCount - 1 ==> results[j].ChunkSize == snapshotChunkSize
+//@ loop 1 invariant forall j int :: 0 <= j && j < len(results) && j == chunkCount - 1 ==> results[j].ChunkSize == filesize - (chunkCount - 1) * snapshotChunkSize
+
+// ---------------------------------------------------------------- receiver side: the per-stream state machine (C15)
+
+//@ func chunkKey [C15]
+//@ trusted fmt.Sprintf of (ShardID, ReplicaID, Index); modelled as an uninterpreted function of those three fields
+//@ ensures result == uf("chunkKeyOf", c.ShardID, c.ReplicaID, c.Index)
+
+//@ func (c *Chunk) removeTempDir [C15]
+//@ trusted file-system effects only (removes the temporary snapshot directory)
+
+//@ func (c *Chunk) ssid [C15]
+//@ trusted log-argument helper
+
+// record: a chunk is accepted only if it is chunk 0 (which starts a new stream) or the next expected
+// chunk of a tracked stream coming from the sender that started it; every other chunk is ignored
+// without changing the tracked state.
+//@ func (c *Chunk) record [C15]
+//@ noframe
+//@ requires c.tracked != nil && chunk.ChunkId < MaxUint64
+//@ modifies held(c.mu), entries(c.tracked), allof(tracked.next), allof(tracked.tick), allof(tracked.files)
+//@ ensures result != nil && chunk.ChunkId != 0 ==> old(uf("chunkKeyOf", chunk.ShardID, chunk.ReplicaID, chunk.Index) in c.tracked) &&
+//@    result == old(c.tracked[uf("chunkKeyOf", chunk.ShardID, chunk.ReplicaID, chunk.Index)]) &&
+//@    old(result.next) == chunk.ChunkId && result.first.From == chunk.From && result.next == chunk.ChunkId + 1
+//@ ensures result != nil && chunk.ChunkId == 0 ==> fresh(result) && result.next == 1 && result.first.From == chunk.From && result.first.ChunkId == 0 &&
+//@    c.tracked[uf("chunkKeyOf", chunk.ShardID, chunk.ReplicaID, chunk.Index)] == result
+//@ ensures result == nil && chunk.ChunkId != 0 ==> (forall k string :: (k in c.tracked) == old(k in c.tracked) && c.tracked[k] == old(c.tracked[k])) &&
+//@    (old(uf("chunkKeyOf", chunk.ShardID, chunk.ReplicaID, chunk.Index) in c.tracked) && old(c.tracked[uf("chunkKeyOf", chunk.ShardID, chunk.ReplicaID, chunk.Index)]) != nil ==>
+//@       old(c.tracked[uf("chunkKeyOf", chunk.ShardID, chunk.ReplicaID, chunk.Index)]).next == old(c.tracked[uf("chunkKeyOf", chunk.ShardID, chunk.ReplicaID, chunk.Index)].next))
+//@ ensures forall k string :: k != uf("chunkKeyOf", chunk.ShardID, chunk.ReplicaID, chunk.Index) ==> (k in c.tracked) == old(k in c.tracked) && c.tracked[k] == old(c.tracked[k])
